@@ -89,6 +89,32 @@ var c12probes = []struct {
 	},
 }
 
+func init() {
+	// modules whose value is not a map: a closure with state, a plain function, an array, scalars, undefined (no return), an error value
+	kinds := map[string]string{
+		"closure": "global L\nL(\"body-closure\")\nn := 0\nreturn func() { n++; return n }\n",
+		"plainfn": "global L\nL(\"body-plainfn\")\nreturn func(a) { return a * 2 }\n",
+		"arr":     "global L\nL(\"body-arr\")\nreturn [1, [2], {k: 3}]\n",
+		"str":     "global L\nL(\"body-str\")\nreturn \"text\"\n",
+		"num":     "global L\nL(\"body-num\")\nreturn 42\n",
+		"none":    "global L\nL(\"body-none\")\nx := 1\n",
+		"errv":    "global L\nL(\"body-errv\")\nreturn error(\"as value\")\n",
+		"nested":  "global L\nL(\"body-nested\")\nc := import(\"closure\")\nc()\nreturn func() { return [c(), import(\"closure\")()] }\n",
+	}
+	add := func(src string) {
+		c12probes = append(c12probes, struct {
+			src  string
+			mods map[string]string
+		}{src, kinds})
+	}
+	add("global L\nc := import(\"closure\")\nL(c())\nL(c())\nd := import(\"closure\")\nL(d())\nf := func() { return import(\"closure\")() }\nL(f())\nfor i := 0; i < 2; i++ {\n  L(import(\"closure\")())\n}\nreturn c()")
+	add("global L\nL(import(\"plainfn\")(2))\nL(import(\"plainfn\")(3))\nreturn import(\"plainfn\") == import(\"plainfn\")")
+	add("global L\na := import(\"arr\")\na[0] = 99\na[1][0] = 98\na[2].k = 97\nL(import(\"arr\"))\nreturn [import(\"str\"), import(\"str\"), import(\"num\") + import(\"num\"), import(\"none\"), import(\"none\")]")
+	add("global L\ne := import(\"errv\")\nL(isError(e), e.Message)\nL(isError(import(\"errv\")))\nreturn import(\"errv\").Message")
+	add("global (L, CALL)\nn := import(\"nested\")\nL(n())\nL(CALL(func() { return import(\"nested\")() }))\nL(import(\"closure\")())\nreturn n()")
+	add("global (L, CALL)\nL(CALL(func() { return import(\"closure\")() }))\nL(import(\"closure\")())\nL(CALL(import(\"closure\")))\nreturn import(\"closure\")()")
+}
+
 func c12callGlobal(childImports *int) *ugo.Function {
 	return &ugo.Function{Name: "CALL", ValueEx: func(c ugo.Call) (ugo.Object, error) {
 		if c.Len() < 1 {
